@@ -3,6 +3,7 @@ package main
 import (
 	"bytes"
 	"fmt"
+	"io"
 
 	cose "github.com/veraison/go-cose"
 )
@@ -264,6 +265,43 @@ func runC02(c *Collector, r *Rng, thorough bool) {
 	if thorough {
 		rn = 500
 	}
+	// ---- a caller's Signer / Verifier that also offers SignDigest / VerifyDigest (as the built-in ones do): the
+	// library still hands it the Sig_structure through Sign / Verify, for every structure ----
+	for i := 0; i < rn; i++ {
+		alg := pick(r, []cose.Algorithm{cose.AlgorithmES256, cose.AlgorithmES384, cose.AlgorithmPS256, cose.AlgorithmPS512, cose.AlgorithmEdDSA})
+		ext := genGoExternal(r)
+		m := &cose.Sign1Message{Headers: genGoHeaders(r, cfg, alg, true, false), Payload: genGoPayloadNonNil(r)}
+		ds := &spyDigestSigner{spySigner: spySigner{alg: alg, kind: SOk, sig: genSigBytes(r)}}
+		c.Eval("digest-capable-key/sign1", fmt.Sprint(i), true)
+		rep := map[string]any{"alg": int64(alg), "i": i}
+		if err := m.Sign(nil, ext, ds); err == nil {
+			want, rerr := refSig1(&m.Headers, ext, m.Payload)
+			if rerr == nil && (len(ds.calls) != 1 || ds.digestCalls != 0 || !bytes.Equal(want, ds.calls[0])) {
+				c.Fail("C02/digest-capable-key-bypassed", fmt.Sprintf("a Signer that also has SignDigest: Sign called %d times, SignDigest %d times (with %x); the structure is %x", len(ds.calls), ds.digestCalls, trimTo(ds.lastDigest, 70), trimTo(want, 70)), rep)
+			}
+			dv := &spyDigestVerifier{spyVerifier: spyVerifier{alg: alg}}
+			if err := m.Verify(ext, dv); err == nil || dv.digestCalls > 0 {
+				if rerr == nil && (len(dv.calls) != 1 || dv.digestCalls != 0 || !bytes.Equal(want, dv.calls[0].content)) {
+					c.Fail("C02/digest-capable-key-bypassed", fmt.Sprintf("a Verifier that also has VerifyDigest: Verify called %d times, VerifyDigest %d times; the structure is %x", len(dv.calls), dv.digestCalls, trimTo(want, 70)), rep)
+				}
+			}
+		}
+		sm := &cose.SignMessage{Headers: genGoHeaders(r, cfg, 0, false, false), Payload: genGoPayloadNonNil(r)}
+		sm.Signatures = []*cose.Signature{{Headers: genGoHeaders(r, cfg, alg, true, false)}, {Headers: genGoHeaders(r, cfg, alg, true, false)}}
+		d1, d2 := &spyDigestSigner{spySigner: spySigner{alg: alg, kind: SOk, sig: genSigBytes(r)}}, &spyDigestSigner{spySigner: spySigner{alg: alg, kind: SOk, sig: genSigBytes(r)}}
+		if err := sm.Sign(nil, ext, d1, d2); err == nil {
+			for j, sp := range []*spyDigestSigner{d1, d2} {
+				if want, rerr := refSigN(&sm.Headers, &sm.Signatures[j].Headers, ext, sm.Payload); rerr == nil && (len(sp.calls) != 1 || sp.digestCalls != 0 || !bytes.Equal(want, sp.calls[0])) {
+					c.Fail("C02/digest-capable-key-bypassed", fmt.Sprintf("COSE_Sign signer %d that also has SignDigest: Sign called %d times, SignDigest %d times", j, len(sp.calls), sp.digestCalls), rep)
+				}
+			}
+		}
+		cs := &cose.Countersignature{Headers: genGoHeaders(r, cfg, alg, true, false)}
+		d3 := &spyDigestSigner{spySigner: spySigner{alg: alg, kind: SOk, sig: genSigBytes(r)}}
+		if err := cs.Sign(nil, d3, m, ext); err == nil && (len(d3.calls) != 1 || d3.digestCalls != 0) {
+			c.Fail("C02/digest-capable-key-bypassed", fmt.Sprintf("a countersigner that also has SignDigest: Sign called %d times, SignDigest %d times", len(d3.calls), d3.digestCalls), rep)
+		}
+	}
 	// ---- hash envelopes made by another implementation (protected map in any order, any head widths):
 	// VerifyHashEnvelope hands its verifier the structure over the protected bytes as received ----
 	for i := 0; i < rn; i++ {
@@ -322,4 +360,27 @@ func runC02(c *Collector, r *Rng, thorough bool) {
 			}
 		}
 	}
+}
+
+// spyDigestSigner / spyDigestVerifier: recording keys that also implement the digest entry points
+type spyDigestSigner struct {
+	spySigner
+	digestCalls int
+	lastDigest  []byte
+}
+
+func (s *spyDigestSigner) SignDigest(_ io.Reader, digest []byte) ([]byte, error) {
+	s.digestCalls++
+	s.lastDigest = append([]byte{}, digest...)
+	return s.sig, nil
+}
+
+type spyDigestVerifier struct {
+	spyVerifier
+	digestCalls int
+}
+
+func (v *spyDigestVerifier) VerifyDigest(digest, sig []byte) error {
+	v.digestCalls++
+	return nil
 }
